@@ -111,7 +111,7 @@ NEWLINE_END = "end-position-after-line-break"
 
 def judge(src, ans):
     """Model-free verdict on the implementation's answer: None | (class, message)."""
-    if ans.startswith("panic") or ans.startswith("fatal"):
+    if ans.startswith("panic") or ans.startswith("fatal") or ans.startswith("timeout"):
         return ("lexer-crash", "lexer.Lex/Colorize did not return: " + ans[:160])
     if not ans.startswith("ok "):
         return ("bad-answer", ans[:160])
@@ -274,7 +274,7 @@ def run(ctx):
             inputs.append((f[2], bytes.fromhex(f[3]), "regression"))
         inputs += gen_inputs(ctx, seeds)
     lines = [line_of(m, b) for m, b, _ in inputs]
-    impl = vlib.run_impl(lines)
+    impl = LC.confirm_hangs(lines, vlib.run_impl(lines), ctx.stat)
     # model leg: certificate on the real artefacts
     cert_idx = [i for i, a in enumerate(impl) if a.startswith("ok ")]
     model = dict(zip(cert_idx, vlib.run_model([cert_line(inputs[i][0], inputs[i][1], impl[i]) for i in cert_idx])))
@@ -291,6 +291,8 @@ def run(ctx):
             ctx.stat("non-ascii")
         if b"\r\n" in b:
             ctx.stat("crlf")
+        if a == "slow":
+            continue
         j = judge(b, a)
         mv = model.get(i)
         if mv is not None and mv.startswith("bad-"):
